@@ -12,9 +12,22 @@ import (
 // A value is 64 bit positions; each position holds an affine form over at most 63 named
 // input bits: bit v (0..62) set = input variable v occurs, bit 63 = the constant 1.
 
-type bform uint64
+type bform struct{ lo, hi uint64 }
 
-const bconst bform = 1 << 63
+// up to 127 input variables; the top bit of hi is the constant 1.
+var bconst = bform{0, 1 << 63}
+var bzero = bform{}
+
+func bvar(v int) bform {
+	if v < 64 {
+		return bform{1 << uint(v), 0}
+	}
+	return bform{0, 1 << uint(v-64)}
+}
+func (a bform) xor(b bform) bform { return bform{a.lo ^ b.lo, a.hi ^ b.hi} }
+func (a bform) or(b bform) bform  { return bform{a.lo | b.lo, a.hi | b.hi} }
+func (a bform) zero() bool        { return a.lo == 0 && a.hi == 0 }
+func (a bform) String() string    { return fmt.Sprintf("%#x:%#x", a.hi, a.lo) }
 
 type bvec struct {
 	b [64]bform
@@ -37,14 +50,14 @@ func bvInput(base, w int) bvec {
 	var v bvec
 	v.w = w
 	for k := 0; k < w; k++ {
-		v.b[k] = 1 << uint(base+k)
+		v.b[k] = bvar(base + k)
 	}
 	return v
 }
 
 func (v bvec) trunc(w int) bvec {
 	for k := w; k < 64; k++ {
-		v.b[k] = 0
+		v.b[k] = bzero
 	}
 	v.w = w
 	return v
@@ -54,7 +67,7 @@ func (v bvec) isConst() (uint64, bool) {
 	var c uint64
 	for k := 0; k < 64; k++ {
 		switch v.b[k] {
-		case 0:
+		case bzero:
 		case bconst:
 			c |= 1 << uint(k)
 		default:
@@ -67,7 +80,7 @@ func (v bvec) isConst() (uint64, bool) {
 func (v bvec) String() string {
 	s := ""
 	for k := 0; k < v.w; k++ {
-		s += fmt.Sprintf("[%d:%x]", k, uint64(v.b[k]))
+		s += fmt.Sprintf("[%d:%s]", k, v.b[k])
 	}
 	return s
 }
@@ -161,7 +174,7 @@ func (e *bitsEnv) eval1(v ssa.Value) (bvec, bool) {
 		switch x.Op {
 		case token.XOR:
 			for k := 0; k < w; k++ {
-				r.b[k] = a.b[k] ^ b.b[k]
+				r.b[k] = a.b[k].xor(b.b[k])
 			}
 			return r, true
 		case token.AND, token.AND_NOT:
@@ -190,7 +203,7 @@ func (e *bitsEnv) eval1(v ssa.Value) (bvec, bool) {
 			default:
 				// bitwise AND of two non-constant forms is non-linear unless one side is zero per bit
 				for k := 0; k < w; k++ {
-					if a.b[k] == 0 || b.b[k] == 0 {
+					if a.b[k].zero() || b.b[k].zero() {
 						continue
 					}
 					if a.b[k] == b.b[k] {
@@ -204,9 +217,9 @@ func (e *bitsEnv) eval1(v ssa.Value) (bvec, bool) {
 		case token.OR:
 			for k := 0; k < w; k++ {
 				switch {
-				case a.b[k] == 0:
+				case a.b[k].zero():
 					r.b[k] = b.b[k]
-				case b.b[k] == 0:
+				case b.b[k].zero():
 					r.b[k] = a.b[k]
 				case a.b[k] == b.b[k]:
 					r.b[k] = a.b[k]
@@ -243,13 +256,13 @@ func (e *bitsEnv) eval1(v ssa.Value) (bvec, bool) {
 			if x.Op == token.ADD {
 				disj := true
 				for k := 0; k < w; k++ {
-					if a.b[k] != 0 && b.b[k] != 0 {
+					if !a.b[k].zero() && !b.b[k].zero() {
 						disj = false
 					}
 				}
 				if disj {
 					for k := 0; k < w; k++ {
-						r.b[k] = a.b[k] | b.b[k]
+						r.b[k] = a.b[k].or(b.b[k])
 					}
 					return r, true
 				}
@@ -268,7 +281,7 @@ func (e *bitsEnv) eval1(v ssa.Value) (bvec, bool) {
 				return a, false
 			}
 			for k := 0; k < w; k++ {
-				a.b[k] ^= bconst
+				a.b[k] = a.b[k].xor(bconst)
 			}
 			return a, true
 		}
@@ -304,7 +317,7 @@ func (e *bitsEnv) eval1(v ssa.Value) (bvec, bool) {
 			return e.fail("table length %d is not a power of two", len(tab))
 		}
 		for k := nb; k < 64; k++ {
-			if idx.b[k] != 0 {
+			if !idx.b[k].zero() {
 				return e.fail("table index bit %d is not provably zero (index may exceed the table)", k)
 			}
 		}
@@ -314,7 +327,7 @@ func (e *bitsEnv) eval1(v ssa.Value) (bvec, bool) {
 			row := tab[1<<uint(j)]
 			for k := 0; k < w; k++ {
 				if row>>uint(k)&1 == 1 {
-					r.b[k] ^= idx.b[j]
+					r.b[k] = r.b[k].xor(idx.b[j])
 				}
 			}
 		}
